@@ -117,6 +117,20 @@ Proof.
   - rewrite Forall_forall in V. exact (V _ I).
 Qed.
 
+Lemma nodupb_spec l : nodupb l = true -> NoDup l.
+Proof.
+  induction l as [|x r IH]; intros H; [constructor|]. cbn in H. apply andb_true_iff in H. destruct H as [H1 H2].
+  constructor; [|now apply IH]. intros I. apply negb_true_iff in H1.
+  assert (existsb (beqb x) r = true); [|congruence]. apply existsb_exists. exists x. split; [exact I|apply beqb_refl].
+Qed.
+Lemma second_run_noop_dec pl fs : plan_ok pl = true ->
+  exec_plan (fst (exec_plan fs pl)) pl = (fst (exec_plan fs pl), []).
+Proof.
+  unfold plan_ok. intros H. apply andb_true_iff in H. destruct H as [H1 H2].
+  apply second_run_noop; [now apply nodupb_spec|]. apply Forall_forall. intros pc I.
+  rewrite forallb_forall in H2. now apply H2.
+Qed.
+
 (* ================= every read is announced (C17) ================= *)
 Definition Ann (w : world) : Prop := forall p, In p (reads w) -> In (Line (rerun p)) (out w).
 
@@ -516,14 +530,6 @@ Proof.
   destruct (ends_with_comparable _ _ _ E); congruence.
 Qed.
 
-Fixpoint nodupb (l : list bytes) : bool :=
-  match l with [] => true | x :: r => negb (existsb (beqb x) r) && nodupb r end.
-Lemma nodupb_spec l : nodupb l = true -> NoDup l.
-Proof.
-  induction l as [|x r IH]; intros H; [constructor|]. cbn in H. apply andb_true_iff in H. destruct H as [H1 H2].
-  constructor; [|now apply IH]. intros I. apply negb_true_iff in H1.
-  assert (existsb (beqb x) r = true); [|congruence]. apply existsb_exists. exists x. split; [exact I|apply beqb_refl].
-Qed.
 Lemma template_suffixes_nodup : NoDup template_suffixes.
 Proof. apply nodupb_spec. vm_compute. reflexivity. Qed.
 Lemma suffix_len s : In s template_suffixes -> length s >= 4.
